@@ -8,8 +8,10 @@ import ol
 
 ASSUME = [
     "endpoint configurations: ephemeral v3 / v2 with a supplied key / single-hop / with local_port=, filesystem with explicit and implicit "
-    "directory / with local_port=, Tor.create_onion_endpoint and Tor.create_filesystem_onion_endpoint; 'onion:' endpoint strings "
-    "(which launch or locate a global Tor) and authenticated services are not driven",
+    "directory / with local_port=, Tor.create_onion_endpoint and Tor.create_filesystem_onion_endpoint, and 'onion:<port>:controlPort=...' endpoint "
+    "strings (through TCPHiddenServiceEndpointParser.parseStreamServer, what serverFromString calls; the endpoint then makes its own "
+    "control connection, which is the 'config' step and may be refused); 'onion:' strings without controlPort (they launch a global "
+    "Tor) and authenticated services (they need real RSA keys for the permanent id) are not driven",
     "one fault per run: configuration Deferred fails, local bind raises CannotListenError, ADD_ONION / SETCONF answered 512, every "
     "descriptor upload FAILED, control connection lost while the creation command or the descriptor wait is outstanding",
     "the reactor is a fake whose listenTCP hands out port numbers and records open listeners and their interface",
